@@ -468,6 +468,16 @@ def step (st : St) (j : Json) : St × Json :=
     let e := AD.parseEv (j.getObjVal? "ev" |>.toOption.getD Json.null)
     (st, Json.str (AD.verdictStr (AD.runValidator (getStr j "name") c (getInt j "now") e
       (AD.bytesList (j.getObjVal? "allowed" |>.toOption.getD Json.null)) (AD.bytesList (j.getObjVal? "denied" |>.toOption.getD Json.null)))))
+  | "adm.nip05" =>
+    let stt := match getStr j "status" with
+      | "enabled" => NostrRelay.Admission.Nip05Status.enabled
+      | "passive" => NostrRelay.Admission.Nip05Status.passive
+      | _ => NostrRelay.Admission.Nip05Status.off
+    let pk : Option (List Nat) := match j.getObjVal? "pubkey" with | .ok (Json.str h) => some (fromHex h) | _ => none
+    let r := NostrRelay.Admission.isNip05Verified stt (getInt j "kind") (fromHex (getStr j "content")) pk
+      (AD.bytesList (j.getObjVal? "allowed" |>.toOption.getD Json.null))
+    (st, Json.mkObj [("verdict", Json.str (AD.verdictStr r.1)),
+      ("allowed", Json.arr ((r.2.map toHex).toArray.qsort (· < ·) |>.map Json.str))])
   | "adm.auth" => (st, Json.str (AD.verdictStr (NostrRelay.Admission.authenticate (getInt j "now") (AD.parseAuthFacts (j.getObjVal? "facts" |>.toOption.getD Json.null)))))
   | "adm.canDo" =>
     let ar : Option (List Char) := match j.getObjVal? "action_roles" with | .ok (Json.str r) => some r.toList | _ => none
